@@ -27,6 +27,7 @@ def run(rep):
     rep.guard(p7, rep, w)
     rep.guard(p8, rep, w)
     rep.guard(p9, rep, w)
+    rep.guard(p10, rep, w)
     rep.guard(c01.r1, rep, w)     # memory safety needs complete tracing: an untraced edge is a use-after-free at the next collection
     import c12
     rep.guard(c12.h4, rep, w)     # a map borrowed mutably while its key is formatted for the error message: RefCell panic
@@ -37,6 +38,9 @@ def run(rep):
     import c10
     rep.guard(c10.v2, rep, w)     # a debug-only assertion on data-dependent quantities is a host panic in the checked build
     rep.guard(c10.v5, rep, w, 'V5')    # overflow-checked arithmetic on program-chosen integers panics in the checked build
+    rep.guard(c10.v6, rep, w)          # ... and so does a difference of two program-chosen lengths taken without comparing them
+    import c08
+    rep.guard(c08.x2b, rep, w)         # a handler popped too many leaves JumpFinally / PopExcHandler with nothing to pop: expect() panics
 
 
 def const_usize(o):
@@ -559,3 +563,47 @@ def p9(rep, w):
                     'index goes out of bounds (host panic)', f.loc(sp))
     if n < 2:
         raise Broken('C02', 'floor', 'P9: only %d len()-guarded index sites found' % n)
+
+
+def p10(rep, w):
+    """an iterator over a collection the program can shrink between two steps (a Vec popped inside the loop over it) has to compare its
+    cursor with the collection's *current* length on every step: the index handed to Index::index in an iterator's next() is
+    dominated, in the same call, by a comparison of that index with a len() result"""
+    r = rep.rule('P10', 'iterators over mutable collections compare their cursor with the current length before every element read', floor=1)
+    n = 0
+    for f in sorted(w.yarel.fns.values(), key=lambda x: x.path):
+        if not (f.path.endswith('Iter::next') and f.path.startswith('yarel::object::')):
+            continue
+        # only collections a program can change while the iterator exists (held in a RefCell); a tuple's length is fixed
+        if not any(strip_generics(callee_name(t) or '').endswith('RefCell::borrow') or strip_generics(callee_name(t) or '').endswith('RefCell::borrow_mut') for _, t in f.calls()):
+            continue
+        org = origins(f)
+        dom = f.dominators()
+        for bi, t in sorted(f.calls()):
+            nm = callee_name(t) or ''
+            unchecked = nm.endswith('::get_unchecked') or nm.endswith('::get_unchecked_mut')
+            if not (('Index' in nm and '::index' in nm) or unchecked):
+                continue
+            tys = [f.crate.tstr(a) for a in (t['f'].get('ra') or t['f'].get('a') or [])]
+            if 'usize' not in tys and not unchecked:
+                continue
+            n += 1
+            ipl = op_place(t['args'][1])
+            idx = org.get(ipl['l'], set()) if ipl else set()
+            guarded = False
+            for b in f.normal_blocks():
+                tt = f.blocks[b]['t']
+                if tt['t'] != 'switch' or b not in dom.get(bi, ()):
+                    continue
+                for s_ in f.blocks[b]['s']:
+                    rr = s_.get('r', {})
+                    if rr.get('rv') == 'bin' and rr['op'] in ('Lt', 'Le', 'Gt', 'Ge'):
+                        sides = [org.get((op_place(o) or {}).get('l'), set()) for o in (rr['a'], rr['b'])]
+                        has_len = any(any(q[0][0] == 'call' and strip_generics(q[0][2]).endswith('::len') for q in sd) for sd in sides)
+                        same = any(sd & idx for sd in sides) if idx else False
+                        if has_len and same:
+                            guarded = True
+            r.check(guarded, '%s / element read' % f.path.replace('yarel::object::', ''), 'the iterator reads element [cursor] without having compared the cursor with the '
+                    'collection\'s current len() in this call: after the loop body shrinks the collection the interpreter panics (index out of bounds) instead of ending the loop', f.loc(t.get('sp')))
+    if n < 1:
+        raise Broken('C02', 'floor', 'P10: %d indexed reads in iterator next() functions' % n)
